@@ -239,7 +239,7 @@ pub fn call_lib(p: &RosProblem) -> SearchResult {
             // in a third of the problems the same callback wrappers are first used for other analyses (every
             // callback as a singleton subchain, as in an iteration over a whole workload): the wrappers must
             // not remember anything
-            if workload.len() >= 2 && (*limit + workload.len() as u64 + subchain[0] as u64) % 3 == 0 {
+            if workload.len() >= 2 && limit.wrapping_add(workload.len() as u64 + subchain[0] as u64) % 3 == 0 {
                 // (not observed by the in-situ monitors of C08: they watch the analysis proper)
                 let io = response_time_analysis::verif_hooks::set_item_observer(None);
                 let so = response_time_analysis::verif_hooks::set_search_observer(None);
@@ -266,7 +266,7 @@ pub fn call_lib(p: &RosProblem) -> SearchResult {
             // in a third of the problems the same callback wrappers are first used for other analyses (every
             // callback as a singleton subchain, as in an iteration over a whole workload): the wrappers must
             // not remember anything
-            if workload.len() >= 2 && (*limit + workload.len() as u64 + subchain[0] as u64) % 3 == 0 {
+            if workload.len() >= 2 && limit.wrapping_add(workload.len() as u64 + subchain[0] as u64) % 3 == 0 {
                 // (not observed by the in-situ monitors of C08: they watch the analysis proper)
                 let io = response_time_analysis::verif_hooks::set_item_observer(None);
                 let so = response_time_analysis::verif_hooks::set_search_observer(None);
@@ -372,14 +372,29 @@ pub fn gen_problem(rng: &mut Rng, which: Option<usize>, limit: u64) -> RosProble
             let nprefix = rng.usize(0, 3);
             let c_prefix: Vec<u64> = (0..nprefix).map(|_| rng.range(1, cmax)).collect();
             let last = Dem::Rbf(arr.clone(), Cost::Scalar(c_last));
-            let prefix = if rng.chance(1, 2) {
+            // in a third of the chains every callback has its own arrival model: the source with that
+            // callback's own activation jitter (the demand steps of prefix and last callback then differ)
+            let own_models = !c_prefix.is_empty() && rng.chance(1, 3);
+            let jit = |rng: &mut Rng, a: &Arr| -> Arr {
+                let j = *rng.pick(&[0u64, 1, 3, 10, 30, 60]) * scale.max(10) / 10;
+                if j == 0 { a.clone() } else { Arr::Jittered { inner: Box::new(a.clone()), j } }
+            };
+            let last = if own_models && rng.chance(1, 2) { Dem::Rbf(jit(rng, &arr), Cost::Scalar(c_last)) } else { last };
+            let prefix = if own_models {
+                let mut parts = vec![];
+                for c in c_prefix.iter() {
+                    let a = jit(rng, &arr);
+                    parts.push(Dem::Rbf(a, Cost::Scalar(*c)));
+                }
+                Dem::Aggregate(parts)
+            } else if rng.chance(1, 2) {
                 Dem::Aggregate(c_prefix.iter().map(|c| Dem::Rbf(arr.clone(), Cost::Scalar(*c))).collect())
             } else {
                 Dem::Rbf(arr.clone(), Cost::Scalar(c_prefix.iter().sum::<u64>()))
             };
             // a prefix with zero total cost must still be a valid RBF: use an empty aggregate instead
             let prefix = if c_prefix.is_empty() { Dem::Aggregate(vec![]) } else { prefix };
-            let full = if rng.chance(1, 2) {
+            let full = if !own_models && rng.chance(1, 2) {
                 Dem::Rbf(arr.clone(), Cost::Scalar(c_last + c_prefix.iter().sum::<u64>()))
             } else {
                 Dem::Aggregate(vec![prefix.clone(), last.clone()])
